@@ -118,6 +118,107 @@ def run(F, R):
                 idx.append(c)
     R.check(len(idx) <= 1, "R33.4", "dynamic:index-sites", idx[0].where() if idx else "-", "%d index site(s)" % len(idx), "%d map/slice index sites under src/dynamic; only resolve()'s types[name] is discharged" % len(idx))
 
+    R.rule("R33.5", "checks are exhaustive over what they iterate: in every SchemaInner check function each loop over types / fields / arguments is left either "
+                    "by iterator exhaustion or on a path that returns an error (`?` residual or an explicit Err); an early non-error exit would leave later "
+                    "siblings unchecked (e.g. a required-input cycle closed by a later field)")
+    from common import sccs, loop_exit_edges, find_aggs as _fa
+    n5 = 0
+    for x in F.find(CHK + r"::\{impl#\d+\}::check\w*$", kind="fn") + F.find(CHK + r"::check_is_valid_implementation$", kind="fn"):
+        errb = {a[0] for a in _fa(x, r"core::result::Result$") if a[1][3] == "Err"} | {c.bb for c in x.calls() if c.callee and c.callee.endswith("::from_residual")}
+        rets = x.exits()
+        ordinal = 0
+        for comp in sorted(sccs(x), key=min):
+            nexts = [c for c in x.calls() if c.bb in comp and ((c.declared or "").endswith("Iterator::next") or re.search(r"::next$", c.callee or ""))]
+            if not nexts:
+                continue
+            n5 += 1
+            ordinal += 1
+            none_srcs = set()
+            for (sbb, place, adt, arms, other, vmap) in x.enum_switches(r"core::option::Option$"):
+                if sbb in comp:
+                    o, passed = trace(x, x.term(sbb)[1])
+                    if any(c in nexts for c in passed):
+                        none_srcs.add(sbb)
+            bad = []
+            for s_, d_ in loop_exit_edges(x, comp):
+                if s_ in none_srcs:
+                    continue
+                reach = x.reachable(d_, avoid=errb)
+                if d_ not in errb and any(r_ in reach for r_ in rets):
+                    bad.append((s_, d_))
+            line = x.stmts(min(comp))[0][2] if x.stmts(min(comp)) else "?"
+            R.check(not bad, "R33.5", "loop-exits-only-exhausted-or-error:%s#%d" % (x.name, ordinal), "%s:%s" % (x.file, line),
+                    "left by exhaustion or with an error", "the loop can be left through bb%s on a path that returns without an error: the remaining items are never checked" % sorted({s for s, _ in bad}))
+    R.floor("R33.5", "iterator loops in the dynamic schema checks", n5, 7)
+
+    R.rule("R33.6", "decision table of TypeRef::is_subtype (finite domain, K4): for each of the 9 (super, sub) wrapper-kind pairs the arm taken is the one the "
+                    "spec's IsValidImplementationFieldType / argument-invariance use requires — (T!, T!) and ([T],[T]) recurse on both inner types, (T, U!) "
+                    "recurses on (T, U), (Named, Named) compares names, every other pair (in particular (T!, non-null-less U)) is false")
+    ist = F.one(r"async_graphql::dynamic::type_ref::\{impl#\d+\}::is_subtype::is_subtype$", kind="fn")
+    KINDS = ["Named", "NonNull", "List"]
+
+    def action(a, b_):
+        bb = 0
+        seen = set()
+        while bb not in seen:
+            seen.add(bb)
+            t = ist.term(bb)
+            for st in ist.stmts(bb):
+                if st[0] == [0] and st[1][0] == "use" and st[1][1][0] == "k":
+                    return ("const", ist.kint(st[1][1]))
+            if t[0] == "switch":
+                d = ist.disc_of_switch(bb)
+                if not d or not d[1].endswith("type_ref::TypeRef"):
+                    return ("?", "switch on " + str(t[1]))
+                side = ".0" if ".0" in d[0] else ".1" if ".1" in d[0] else None
+                if side is None:
+                    # match directly on a parameter
+                    side = ".0" if d[0][0] == 1 else ".1"
+                want = a if side == ".0" else b_
+                nxt = t[3]
+                for v, tgt in t[2]:
+                    if d[2].get(v) == want:
+                        nxt = tgt
+                bb = nxt
+                continue
+            if t[0] == "call":
+                c = [c for c in ist.calls() if c.bb == bb][0]
+                if c.callee == ist.defp:
+                    def inner(op):
+                        o, _ = trace(ist, op)
+                        return any(k == "field" and any(isinstance(f, str) and f.startswith("@") for f in x) for k, x in o)
+                    return ("rec", inner(c.args[0]), inner(c.args[1]))
+                if c.callee and c.callee.endswith("::eq"):
+                    return ("eq",)
+                bb = c.target
+                continue
+            succ = ist.succ(bb)
+            if len(succ) != 1:
+                return ("?", "bb%d" % bb)
+            bb = succ[0]
+        return ("?", "loop")
+
+    EXPECT = {}
+    for a in KINDS:
+        for b_ in KINDS:
+            if a == "NonNull" and b_ == "NonNull":
+                EXPECT[(a, b_)] = ("rec", True, True)
+            elif b_ == "NonNull":
+                EXPECT[(a, b_)] = ("rec", False, True)
+            elif a == "NonNull":
+                EXPECT[(a, b_)] = ("const", 0)
+            elif a == b_ == "Named":
+                EXPECT[(a, b_)] = ("eq",)
+            elif a == b_ == "List":
+                EXPECT[(a, b_)] = ("rec", True, True)
+            else:
+                EXPECT[(a, b_)] = ("const", 0)
+    for (a, b_), want in sorted(EXPECT.items()):
+        got = action(a, b_)
+        R.check(got == want, "R33.6", "is_subtype(%s,%s)" % (a, b_), ist.where(), "arm: %s" % (got,),
+                "TypeRef::is_subtype(super=%s.., sub=%s..) takes the arm %s where %s is required: interface-implementation checking (field types covariant, argument "
+                "types invariant up to this helper) accepts or rejects the wrong schemas" % (a, b_, got, want))
+
 
 def _strs(o):
     if isinstance(o, str):
@@ -126,3 +227,4 @@ def _strs(o):
         for x in o:
             for y in _strs(x):
                 yield y
+
